@@ -110,6 +110,34 @@ func runC21(c *eng.Ctx) {
 			}
 			c.Guard("PROV-hardlink-release", "only-when-identity-differs", fn, eng.Entry(fn), dh, eng.PassEdges(fn, differs), "the displaced identity is released only when it differs from the new one")
 		}
+		// a plain (non-link) entry written over a hard-linked name displaces that identity too: on the edge where
+		// the new entry has no link id the release is still reachable
+		if len(dh) == 1 {
+			plain := eng.PassEdges(fn, func(cond ssa.Value) (bool, bool) {
+				b, ok := cond.(*ssa.BinOp)
+				if !ok || !isZero(b.Y) {
+					return false, false
+				}
+				call, isCall := b.X.(*ssa.Call)
+				if !isCall || !eng.CalleeIs(call, "builtin.len") || !eng.MentionsField(call.Call.Args[0], "Entry.HardLinkId") || !eng.Mentions(call.Call.Args[0], 4, func(x ssa.Value) bool { return eng.IsParam(x, "entry") }) {
+					return false, false
+				}
+				switch b.Op {
+				case token.EQL:
+					return true, true
+				case token.NEQ, token.GTR:
+					return true, false
+				}
+				return false, false
+			})
+			okPlain := len(plain) > 0
+			for _, st := range startsOf(plain) {
+				if hit, _ := eng.Search(st, eng.Is(dh[0]), eng.SearchOpt{}); hit == nil {
+					okPlain = false
+				}
+			}
+			c.Ob("PROV-hardlink-release", eng.FuncName(fn)+" plain-overwrite-releases", okPlain, eng.InstrPos(dh[0]), "writing an entry without a link id over a hard-linked name still releases the displaced identity")
+		}
 		sh := eng.Find(fn, eng.PlainCallTo("filer.FilerStoreWrapper).setHardLink"))
 		c.ErrChecked("ERR-hardlink", "setHardLink", fn, sh, "a failed shared-record write fails the update")
 	}
